@@ -107,11 +107,18 @@ fn read_main(args: &[String]) {
     }
 }
 
-struct Sink(std::rc::Rc<std::cell::RefCell<Vec<u8>>>);
+/// a picky but lawful sink: every third call reports Interrupted, the others accept at most half of what is offered
+/// (at least one byte); `write_all` makes this invisible, a bare `write` does not
+struct Sink(std::rc::Rc<std::cell::RefCell<Vec<u8>>>, usize);
 impl Write for Sink {
     fn write(&mut self, buf: &[u8]) -> std::io::Result<usize> {
-        self.0.borrow_mut().extend_from_slice(buf);
-        Ok(buf.len())
+        self.1 += 1;
+        if self.1 % 3 == 1 {
+            return Err(std::io::Error::new(std::io::ErrorKind::Interrupted, "scripted interrupt"));
+        }
+        let k = if buf.len() > 1 { (buf.len() + 1) / 2 } else { buf.len() };
+        self.0.borrow_mut().extend_from_slice(&buf[..k]);
+        Ok(k)
     }
     fn flush(&mut self) -> std::io::Result<()> { Ok(()) }
 }
@@ -130,7 +137,7 @@ macro_rules! wint_case {
 fn write_main(args: &[String]) {
     let sink = std::rc::Rc::new(std::cell::RefCell::new(Vec::new()));
     {
-        let mut w = Writer::new(Box::new(Sink(sink.clone())));
+        let mut w = Writer::new(Box::new(Sink(sink.clone(), 0)));
         for op in args[0].split(';') {
             let parts: Vec<&str> = op.split(':').collect();
             let unhex = |h: &str| -> String { (0..h.len() / 2).map(|i| u8::from_str_radix(&h[2 * i..2 * i + 2], 16).unwrap() as char).collect() };
